@@ -307,7 +307,11 @@ impl ClientState {
             };
             // ~ sync the partitions vector with the new information
             for partition in t.partitions {
-                let tp = &mut tps[partition.id as usize];
+                // ~ ignore partition ids outside 0..N (N being the
+                // number of partitions reported for the topic)
+                let Some(tp) = tps.get_mut(partition.id as usize) else {
+                    continue;
+                };
                 if let Some(bref) = brokers.get(&partition.leader) {
                     tp.broker.set(*bref);
                 } else {
